@@ -647,6 +647,13 @@ func (s *c06State) exec(f []string) string {
 			return c06Err(err)
 		}
 		return f[0] + " ok"
+	case "compact":
+		// CompactSwamp: forced rewrite of the swamp's file (observably a no-op on the records)
+		_, err := gw.CompactSwamp(ctx, c06Wire(&hydrapb.CompactSwampRequest{IslandID: island, SwampName: sw}, &hydrapb.CompactSwampRequest{}))
+		if err != nil {
+			return c06Err(err)
+		}
+		return "compact ok"
 	case "size":
 		resp, err := gw.Uint32SliceSize(ctx, c06Wire(&hydrapb.Uint32SliceSizeRequest{IslandID: island, SwampName: sw, Key: f[1]}, &hydrapb.Uint32SliceSizeRequest{}))
 		if err != nil {
